@@ -317,4 +317,20 @@ PROPS = {
             "RocksDB and the in-memory store implementations are C13's subject; inactivity time-out is exercised only as a clean stop (partial)",
         ],
     ),
+    "C07": dict(
+        coq_targets=["Props/C07.vo"],
+        harness=[dict(pkg="h_agent", bin="c07", cases={"quick": 600, "thorough": 8000},
+                      checkers=["corr", "oracle"], timeout=3000)],
+        allowed_axioms=[],
+        trusted_base=[
+            "the read task is modelled at the granularity of its select loop (one remote envelope or one new consumer per step) with its three consumer lists, dl_state, current and sync_event; feeds and flushes to consumers are taken to succeed; the inactivity votes and time-outs are not modelled (they never fire in the harness: 60 s)",
+            "the write task is modelled for value downlinks (Idle / Writing, NEEDS_SYNC, latest-value backpressure) with write completion as an explicit event; FLUSHED only affects when bytes leave, not which frames",
+            "the harness drives the real ValueDownlinkRuntime / MapDownlinkRuntime (attach, read and write tasks on a single-threaded runtime) step by step, letting the tasks settle after every action, so the order of events seen by the read and write tasks is the order of the actions",
+        ],
+        assumptions=[
+            "each consumer attaches once; the remote's envelopes are arbitrary sequences (the theorems do not assume a well-behaved lane); consumers neither fail nor drop (partial)",
+            "map downlinks: the read side is compared with the same model (events are opaque, SINGLE_FRAME_STATE = false); the write side's map queue (runtime's MapOperationQueue) is not modelled: with an attentive remote commands pass unchanged and are compared as a sequence, slow sockets are exercised for value downlinks only",
+            "with a slow socket the frames are not compared with the model (write completion is not observable precisely) but must satisfy the oracle: link first, commands a subsequence in order",
+        ],
+    ),
 }
